@@ -138,7 +138,7 @@ type uEnv struct {
 	probes  []*uProbe
 	dump    *uSyncBuf
 	closed  bool // Close has returned
-	curHdr  *rtp.Header
+	inflight map[*rtp.Header]*uFlight // application RTP writes in progress, keyed by the caller's header object
 	curRTCP rtcp.Packet
 	failNow bool
 	wireApp []vfM
@@ -154,6 +154,11 @@ type uEnv struct {
 	scribble bool  // overwrite caller-owned buffers as soon as a call has returned
 	emis     []vfM // everything the chain emitted or recorded that derives from packet contents
 	readBuf  []byte
+}
+
+type uFlight struct {
+	fail bool
+	wire []vfM
 }
 
 type uSyncBuf struct {
@@ -376,13 +381,14 @@ func (e *uEnv) wireRTP(s uint32) interceptor.RTPWriter {
 	return interceptor.RTPWriterFunc(func(h *rtp.Header, pl []byte, _ interceptor.Attributes) (int, error) {
 		e.mu.Lock()
 		defer e.mu.Unlock()
-		app := h == e.curHdr
+		fl := e.inflight[h]
+		app := fl != nil
 		var rec vfM
 		if !e.nowire || e.quiet {
 			rec = vfPkt(h, pl)
 		}
 		if app {
-			if e.failNow {
+			if fl.fail {
 				if !e.quiet {
 					e.out.Emit(vfM{"a": "wire", "t": "rtp", "s": s, "app": true, "failed": true, "closed": e.closed, "pkt": rec, "sum": []vfM{}})
 				}
@@ -390,7 +396,7 @@ func (e *uEnv) wireRTP(s uint32) interceptor.RTPWriter {
 				return 0, errUInner
 			}
 			if rec != nil {
-				e.wireApp = append(e.wireApp, rec)
+				fl.wire = append(fl.wire, rec)
 			}
 		} else if e.quiet {
 			e.emis = append(e.emis, uEmis("rtp", h, pl, h.SSRC == s && h.PayloadType == 96))
@@ -578,7 +584,7 @@ func uInfo(st *uStep) *interceptor.StreamInfo {
 func uRun(t *testing.T, sc *uScript, out *vfWriter, scribble, quiet bool) []vfM { //nolint:gocognit,cyclop,maintidx
 	t.Helper()
 	e := &uEnv{t: t, out: out, dump: &uSyncBuf{}, nextRTP: map[uint32][]byte{}, scribble: scribble, quiet: quiet, nowire: sc.NoWire,
-		okW: map[uint32]int{}, okR: map[uint32]int{}}
+		okW: map[uint32]int{}, okR: map[uint32]int{}, inflight: map[*rtp.Header]*uFlight{}}
 	kinds := []string{}
 	reg := &interceptor.Registry{}
 	for _, m := range sc.Members {
@@ -743,16 +749,16 @@ func uRun(t *testing.T, sc *uScript, out *vfWriter, scribble, quiet bool) []vfM 
 			if !e.nowire {
 				e.emit(vfM{"a": "pre", "op": "wrtp", "s": st.S, "w": st.W, "tw": -1, "fail": st.Fail})
 			}
+			fl := &uFlight{fail: st.Fail}
 			e.mu.Lock()
-			e.curHdr, e.failNow, e.wireApp = h, st.Fail, nil
+			e.inflight[h] = fl
 			e.mu.Unlock()
 			var n int
 			var werr error
 			blocked, pan = uGuard(limit, func() { n, werr = b.writer.Write(h, pl, interceptor.Attributes{}) })
 			e.mu.Lock()
-			e.curHdr, e.failNow = nil, false
-			w := e.wireApp
-			e.wireApp = nil
+			delete(e.inflight, h)
+			w := fl.wire
 			e.mu.Unlock()
 			if w == nil {
 				w = []vfM{}
